@@ -32,15 +32,22 @@ def base_archives():
         ("aes", files, {"folders": [[0, 2, 4]], "chains": [[("COPY", {}), ("AES", {})]]}, "pw"),
         ("aes-header", files, {"folders": [[0, 2, 4]], "chains": [C], "header": "lzma2+aes"}, "pw"),
         ("only-empty", [files[1], files[3]], {}, None),
+        ("two-plain-files", [files[0], files[2]], {"folders": [[0, 1]], "chains": [C]}, None),  # no empty-stream section between NumFiles and the names
         ("single-file-folders-explicit-counts", files, {"folders": [[0], [2], [4]], "chains": [C, C, Z], "numunpack_omit": False, "crc": "folder"}, None),
     ]
+
+
+_HEADER_LEN = {"n": 0}
 
 
 def _mutations_of(tok):
     kind, v, path = tok
     out = []
     if kind == "num":
-        out = [x for x in NUM_VALUES if x != v]
+        # besides the powers of two: counts of the order of what a header of this length could just about describe
+        # (a bound of the form "count <= c * len(header)" lets these through; the cost per claimed item then decides)
+        L = _HEADER_LEN["n"]
+        out = [x for x in sorted(set(NUM_VALUES) | ({L, 8 * L} if L else set())) if x != v]
     elif kind == "id":
         out = [x for x in range(0, 27) if x != v] + [0xFF]
     elif kind == "byte":
@@ -87,6 +94,10 @@ def _resize(tokens):
 
 def header_mutants(tokens):
     """Yield (label, token list)."""
+    try:
+        _HEADER_LEN["n"] = len(ref7z.assemble(tokens))
+    except Exception:
+        _HEADER_LEN["n"] = 0
     for i, tok in enumerate(tokens):
         for mv in _mutations_of(tok):
             t = copy.deepcopy(tokens)
